@@ -224,7 +224,7 @@ var Programs = []Prog{
 		select {
 		case v, ok := <-c:
 			return fmt.Sprint(v, ok)
-		case <-time.After(50 * time.Millisecond):
+		case <-time.After(time.Minute): // (long: a stalled machine must not make the real side show "timeout")
 			return "timeout"
 		}
 	}},
@@ -517,7 +517,7 @@ var Programs = []Prog{
 		select {
 		case v := <-c:
 			return fmt.Sprint("data", v)
-		case <-time.After(50 * time.Millisecond):
+		case <-time.After(time.Minute):
 			return "timeout"
 		}
 	}},
